@@ -136,6 +136,29 @@ func (c *Check) resetConstants(rule string) {
 		// every context: the closure is bound to the whole-family iteration
 	}
 	c.req(n >= 1, rule, "reset-writes", token.NoPos, fmt.Sprintf("%d reset writes found", n))
+	// every context is reset: the closure bound to the whole-family context scan stores on every path
+	for _, b := range c.closuresBoundToScan("0x08") {
+		if !c.isZeroHeightOnly(b.Closure.root()) {
+			continue
+		}
+		bad := 0
+		np := 0
+		for _, pa := range c.P.PathsOf(b.Closure) {
+			np++
+			_, ok := c.pathHasEffect(b.Closure, pa, func(e *Eff) bool { return e.Kind == "store" && e.Op == "Set" && e.Family == "0x08" })
+			if !ok {
+				bad++
+			}
+			// the iteration must not be stopped early
+			for _, r := range pa.Ret {
+				if !r.IsAt("#false") {
+					bad++
+				}
+			}
+		}
+		c.req(np > 0 && bad == 0, rule, unitConstruct(b.Closure, "reset-every-context"), b.Closure.Body.Pos(),
+			fmt.Sprintf("every path of the per-context reset stores the reset context and continues the iteration (%d of %d paths do not)", bad, np))
+	}
 	// validation requires exactly these constants
 	vg := c.mustFn(rule, "types.ValidateGenesis")
 	if vg == nil {
